@@ -199,6 +199,7 @@ class HostsHarness:
         self.known0 = set(consts["Known0"])
         self.sess_ids = sorted(consts["Sessions"])
         self.ignored = set(consts["Ignored"])
+        self.objs = self.hosts + ([h + 10 for h in self.hosts] if "readd" in set(consts.get("Env", ())) else [])
         self.fine = bool(consts.get("FineUp")) and len(self.sess_ids) == 2
         self.world = w = SimWorld()
         self.nodes = {CTL: w.add_node(FakeNode(addr_of(CTL), tokens=["10"]))}
@@ -317,9 +318,19 @@ class HostsHarness:
 
     def _see_hosts(self):
         for host in self.cluster.metadata.all_hosts():
-            n = num_of(host.address)
-            if n not in self.hostobj:
-                self.hostobj[n] = host
+            self.oid(host)
+
+    def oid(self, host):
+        """Number of a Host object: the endpoint's number for the first object seen for it, +10 for the second
+        (a node removed and added again at the same address is a new Host object)."""
+        for n, obj in self.hostobj.items():
+            if obj is host:
+                return n
+        n = num_of(host.address)
+        while n in self.hostobj:
+            n += 10
+        self.hostobj[n] = host
+        return n
 
     def host(self, h):
         self._see_hosts()
@@ -375,10 +386,10 @@ class HostsHarness:
                 ba = inspect.signature(fn).bind(*args, **kwargs)
                 ba.apply_defaults()
                 a = ba.arguments
-                return T("OnDown", h=num_of(a["host"].address), f1=a["is_host_addition"], f2=a["expect_host_to_be_down"])
+                return T("OnDown", h=self.oid(a["host"]), f1=a["is_host_addition"], f2=a["expect_host_to_be_down"])
             if name == "run_add_or_renew_pool":
                 fv = self._freevars(fn)
-                h = num_of(fv["host"].address)
+                h = self.oid(fv["host"])
                 s = self._sess_num(fv["self"])
                 kind, n = "upd", 0
                 cbs = list(getattr(future, "_done_callbacks", ())) if future is not None else []
@@ -410,12 +421,12 @@ class HostsHarness:
             if name == "run" and isinstance(owner, cpool._HostReconnectionHandler):
                 host = owner.host
                 att = host._reconnection_handler is owner
-                return T("Recon", h=num_of(host.address), kind="att" if att else "det", f1=owner._cancelled,
+                return T("Recon", h=self.oid(host), kind="att" if att else "det", f1=owner._cancelled,
                          f2=owner.is_host_addition)
             if name == "on_up" and isinstance(owner, ccluster.Cluster):
-                return T("OnUp", h=num_of(args[0].address))
+                return T("OnUp", h=self.oid(args[0]))
             if name == "remove_host":
-                return T("RemoveHost", h=num_of(args[0].address))
+                return T("RemoveHost", h=self.oid(args[0]))
             if name == "_refresh_nodes_if_not_up":
                 return T("RefreshIf", h=0 if args[0] is None else num_of(args[0].address))
             if name == "_reconnect" and isinstance(owner, ccluster.ControlConnection):
@@ -435,12 +446,12 @@ class HostsHarness:
 
     def _recon_desc(self, handler):
         host = handler.host
-        return T("ReconConn", h=num_of(host.address), kind="att" if host._reconnection_handler is handler else "det",
+        return T("ReconConn", h=self.oid(host), kind="att" if host._reconnection_handler is handler else "det",
                  f1=handler._cancelled, f2=handler.is_host_addition)
 
     def _cont_desc(self, frame, rec):
         loc = frame.f_locals
-        h = num_of(loc["host"].address)
+        h = self.oid(loc["host"])
         g = self._group_of(h, "up", loc["futures"], loc["futures_results"])
         return T("OnUpCont", h=h, f1=rec, n=g["n"])
 
@@ -631,7 +642,7 @@ class HostsHarness:
         self._see_hosts()
         md = self.cluster.metadata
         known, removed, up, handling, recon = {}, {}, {}, {}, {}
-        for h in self.hosts:
+        for h in self.objs:
             obj = self.hostobj.get(h)
             inmd = obj is not None and md.get_host(obj.endpoint) is obj
             known[h] = inmd
@@ -887,10 +898,11 @@ def to_post(p, consts):
     hosts = sorted(consts["Hosts"])
     sess = sorted(consts["Sessions"])
     allh = [CTL] + hosts
+    objs = hosts + ([h + 10 for h in hosts] if "readd" in consts.get("Env", ()) else [])
     return {
-        "known": [p["known"][h] for h in hosts], "removed": [p["removed"][h] for h in hosts],
-        "up": [p["up"][h] for h in hosts], "handling": [p["handling"][h] for h in hosts],
-        "recon": [p["recon"][h] for h in hosts],
+        "known": [p["known"][h] for h in objs], "removed": [p["removed"][h] for h in objs],
+        "up": [p["up"][h] for h in objs], "handling": [p["handling"][h] for h in objs],
+        "recon": [p["recon"][h] for h in objs],
         "pools": [[p["pools"][s][h] for h in allh] for s in sess],
         "grp": [{"h": k[0], "kind": k[1], "n": k[2], "left": sorted(g["left"]), "ok": g["ok"], "open": g["open"]}
                 for k, g in sorted(p["grp"].items())],
@@ -933,13 +945,17 @@ def enabled_ops(h, p, consts, state):
                 for s in h.sess_ids:
                     if p["pools"][s][hh] == "open":
                         ops.append(("env", A("ConnFailure", s=s, h=hh)))
-            if "status" in env and p["ctl"] == "open" and p["known"][hh]:
+            objs_h = [o for o in p["known"] if o % 10 == hh]
+            known_h = any(p["known"][o] for o in objs_h)
+            fresh_h = any(not p["known"][o] and not p["removed"][o] for o in objs_h)
+            removing = any(t[0] == "RemoveHost" and t[2] % 10 == hh for t in list(p["exec"]) + list(p["sched"]))
+            if "status" in env and p["ctl"] == "open" and known_h:
                 ops.append(("env", A("StatusEvent", h=hh, x="UP")))
                 ops.append(("env", A("StatusEvent", h=hh, x="DOWN")))
             if "topo" in env and p["ctl"] == "open":
-                if hh not in state["peers"] and not p["known"][hh] and not p["removed"][hh]:
+                if hh not in state["peers"] and not known_h and fresh_h and not removing:
                     ops.append(("env", A("TopologyEvent", h=hh, x="NEW_NODE")))
-                if hh in state["peers"] and p["known"][hh]:
+                if hh in state["peers"] and known_h:
                     ops.append(("env", A("TopologyEvent", h=hh, x="REMOVED_NODE")))
             for m in ("ok", "refuse", "auth", "drop"):
                 if m != state["mode"][hh] and (m == "ok" or (m == "refuse" and "mode" in env) or (m == "auth" and "auth" in env)
